@@ -61,12 +61,31 @@ func tgtScope(r *hv.Rng) (*hcl.EvalContext, *hcl.EvalContext) {
 		v1["nl"] = cty.TupleVal([]cty.Value{a.Mark(mark), n(2)})
 		v2["nl"] = cty.TupleVal([]cty.Value{b.Mark(mark), n(2)})
 	}
+	// collections whose ELEMENTS carry the mark (the collection itself is unmarked): filters, keys and
+	// conditions computed from the iterated element
+	srv := func() cty.Value {
+		var es []cty.Value
+		for _, nm := range []string{"a", "b", "c"} {
+			es = append(es, cty.ObjectVal(map[string]cty.Value{"name": cty.StringVal(nm), "on": cty.BoolVal(r.Chance(0.5)).Mark(mark),
+				"w": n(int64(r.Intn(3))).Mark(mark)}))
+		}
+		return cty.ListVal(es)
+	}
+	v1["srv"], v2["srv"] = srv(), srv()
+	mv := func() cty.Value {
+		return cty.MapVal(map[string]cty.Value{"a": cty.StringVal(r.Pick("x", "y")).Mark(mark), "b": cty.StringVal(r.Pick("x", "z")).Mark(mark)})
+	}
+	v1["mv"], v2["mv"] = mv(), mv()
 	return &hcl.EvalContext{Variables: v1, Functions: hv.HarnessFuncs}, &hcl.EvalContext{Variables: v2, Functions: hv.HarnessFuncs}
 }
 
 var tgtAtoms = []string{
 	"mt[i]", "l[i]", "ls[i]", "ml[0]", "nl[0]", "mt[nl[0]]", "i", "mo[k]", "mm[k]", "k", "ml", "[mt[i]]", "[for x in ml : x]",
 	"ml[*]", "mb", "i == 0", "[mt[i], 1]", "{a = mt[i]}", "mm", "[for x in ml : mt[x]]", "nl", "lt[0][i]",
+	"[for s in srv : s.name if s.on]", "{for s in srv : s.name => 1 if s.on}", "{for s in srv : s.name => s.name... if s.w == 1}",
+	"[for s in srv : s.name if s.w != 0]", "{for s in srv : \"k${s.w}\" => s.name...}", "[for k, v in mv : k if v == \"x\"]",
+	"{for k, v in mv : v => k...}", "srv[*].name", "[for s in srv : s.on ? s.name : \"-\"]", "srv[srv[0].w].name", "mt[srv[1].w]",
+	"\"%{ for s in srv }%{ if s.on }${s.name}%{ endif }%{ endfor }\"", "[for s in srv : s.name if s.on][0]",
 }
 
 // contexts: H is replaced by a sub-expression
